@@ -21,6 +21,12 @@ Fixpoint names_of (e : senv) (x : dexpr) : res sig :=
         else if subset_s (fst sb) (fst sa) then Ok (fst sa, snd sa)
         else if subset_s (fst sa) (fst sb) then Ok (fst sb, snd sa)
         else Err "1-1-14-5"))
+  | DSet _ a b =>
+      (* set operators: both operands must have the same identifier names and the same other component names (as sets);
+         the result has the structure — names AND order — of the first operand *)
+      bind (names_of e a) (fun sa => bind (names_of e b) (fun sb =>
+        if negb (same_names (fst sa) (fst sb) && same_names (snd sa) (snd sb) && nodup_s (fst sb)) then Err ERR_SET_STRUCT
+        else Ok sa))
   | DMap a _ | DFilter a _ => names_of e a
   | DCalc a defs => bind (names_of e a) (fun s =>
         if existsb (fun df => mem_s (fst df) (fst s)) defs then Err "1-1-6-13" else Ok (fst s, calc_names (snd s) defs))
